@@ -153,7 +153,7 @@ def admissible_point(rng, sol, sig):
 
 def purity_picker(sol):
     return (sa_chem_param if sol in ('rans_sa', 'fans_sa_transient_free_shear', 'fans_sa_steady_wall_bounded', 'euler_chem_1d')
-            else closed_param if sol in ('sod_1d', 'cp_normal') else admissible_param
+            else closed_param if sol in ('sod_1d', 'cp_normal') else ablation_param if sol == 'navierstokes_ablation_1d_steady' else admissible_param
             if (sol.startswith('heateq') or sol.startswith('euler') or sol.startswith('navierstokes_2') or sol.startswith('navierstokes_3')
                 or sol.startswith('axi') or sol in ('laplace_2d', 'burgers_equation', 'navierstokes_4d_compressible_powerlaw')) else around_default)
 
@@ -510,6 +510,15 @@ def sa_chem_param(rng, sol, k):
     return around_default(rng, sol, k)
 
 
+def ablation_param(rng, sol, k):
+    """navierstokes_ablation_1d_steady: temperature and densities stay positive (the defaults T_0 = T_x = 12 let T touch 0)"""
+    if k in ('T_x', 'rho_C_x', 'rho_C3_x', 'rho_N_x', 'rho_N2_x'):
+        return sgn(rng) * exact_double(rng, 1.0, 6.0)
+    if k in ('a_Tx', 'a_rho_C_x', 'a_rho_C3_x', 'a_rho_N_x', 'a_rho_N2_x'):
+        return exact_double(rng, 0.3, 2.5)
+    return around_default(rng, sol, k)
+
+
 def closed_param(rng, sol, k):
     u = lambda lo, hi: exact_double(rng, lo, hi)
     if sol == 'sod_1d':               # Gamma (mu is set consistently by gen_values); a few classical values too
@@ -625,7 +634,8 @@ def gen_values(rng, sol, precs=('d', 'ld'), nassign=2, npts=3, evaluators=None, 
     last_pts = []
     for ai in range(nassign):
         pick = setter or (sa_chem_param if sol in ('rans_sa', 'fans_sa_transient_free_shear', 'fans_sa_steady_wall_bounded', 'euler_chem_1d')
-                          else closed_param if sol in ('sod_1d', 'cp_normal') else admissible_param)
+                          else closed_param if sol in ('sod_1d', 'cp_normal')
+                          else ablation_param if sol == 'navierstokes_ablation_1d_steady' else admissible_param)
         vals = {k: pick(rng, sol, k) for k in e['pars']}
         if mix:
             vals = scale_mix(rng, sol, vals, ai)
